@@ -8,6 +8,7 @@
 import MediaSan.Lemmas.BitBuf
 import MediaSan.Lemmas.BitTrace
 import MediaSan.Lemmas.BufOnly
+import MediaSan.Lemmas.BitBridge
 import MediaSan.Generated.Vp8lTables
 namespace MediaSan.Props.C19
 open MediaSan MediaSan.Vp8l
@@ -129,6 +130,54 @@ example : runBufOnlyStrat (fun hs => if hs.length < 3 then some (.read 8) else n
 example : (match newCode [(0, 1), (1, 1)], newCode [(0, 1)] with
     | .ok c2, .ok c1 => decide (Group.wellFormed ⟨c2, c1, c1, c1, c1⟩) && readaheadBits ⟨c2, c1, c1, c1, c1⟩ == 38
     | _, _ => false) = true := by decide
+
+/-! ### the whole-string reader of these theorems is the reader the validator model runs on -/
+
+/-- `idealStep` (byte lists; the right-hand side of `C19_trace`, `C19_adaptive`, `C19_guarded_run`) and the bit reader
+    of the lossless validator model (`readBits` / `readSym` over `ByteArray`, Vp8l/Bits.lean, Huffman.lean) are the same
+    function: same value, same new position, end of data as `truncated` - every byte string, position and width ... -/
+theorem C19_ideal_is_model_read (l : Bytes) (n p : Nat) :
+    readBits n (ByteArray.mk l.toArray) p =
+      match idealStep l p (.read n) with
+      | some r => .ok r
+      | none => .error .truncated := readBits_eq_idealStep l n p
+
+/-- ... and every finalized prefix code (`compile_read_tree` only returns complete tries) -/
+theorem C19_ideal_is_model_sym (l : Bytes) (c : Code) (hc : c.tree.complete = true) (p : Nat) :
+    readSym c (ByteArray.mk l.toArray) p =
+      match idealStep l p (.sym c) with
+      | some r => .ok r
+      | none => .error .truncated := readSym_eq_idealStep l c hc p
+
+/-- hence `read(n)` through the buffer, at any capacity and buffer state, is the validator model's `readBits n` at the
+    absolute position: same value and position, `TruncatedChunk` exactly when the model says so -/
+theorem C19_read_model (s : BitBuf) (orig : Bytes) (d : Nat) (h : Abs s orig d) (n : Nat) (hcap : n + 8 ≤ 8 * s.cap) :
+    match s.read n with
+    | some (v, _) => readBits n (ByteArray.mk orig.toArray) (s.absPos d) = .ok (v, s.absPos d + n)
+    | none => readBits n (ByteArray.mk orig.toArray) (s.absPos d) = .error .truncated := by
+  have key := read_refines s orig d h n hcap
+  rw [readBits_eq_idealStep]
+  simp only [idealStep]
+  cases hr : s.read n with
+  | none => rw [hr] at key; simp only at key; rw [key]; rfl
+  | some r => obtain ⟨v, s'⟩ := r; rw [hr] at key; simp only at key; rw [key.1]; rfl
+
+/-- ... and `read_huffman` through the buffer is the model's `readSym`, for every finalized code the capacity holds -/
+theorem C19_read_huffman_model (s : BitBuf) (orig : Bytes) (d : Nat) (h : Abs s orig d) (c : Code)
+    (hc : c.tree.complete = true) (hh : c.tree.height ≤ c.longest) (hcap : c.longest + 8 ≤ 8 * s.cap) :
+    match s.readSym c with
+    | some (sym, s') => ∃ d', readSym c (ByteArray.mk orig.toArray) (s.absPos d) = .ok (sym, s'.absPos d')
+    | none => readSym c (ByteArray.mk orig.toArray) (s.absPos d) = .error .truncated := by
+  have key := readSym_refines s orig d h c hh hcap
+  rw [readSym_eq_idealStep orig c hc]
+  simp only [idealStep]
+  cases hr : s.readSym c with
+  | none => rw [hr] at key; simp only at key; rw [key]
+  | some r =>
+    obtain ⟨v, s'⟩ := r
+    rw [hr] at key; simp only at key
+    obtain ⟨d', hk, _⟩ := key
+    exact ⟨d', by rw [hk]⟩
 
 -- Non-vacuity: a run of four fields over a 2-byte buffer (refills in between), ending past the end of data
 example : runBufOps [.read 3, .read 7, .read 8, .read 8, .read 8, .read 8] (BitBuf.new 2 [0xA5, 0x3C, 0xFF, 0x01, 0x80]) =
